@@ -240,3 +240,47 @@ Definition slot_at (sl : list nat) (j : nat) : nat := match j with O => O | S j'
 (* ------------------------------------------------------------------ constructor checks *)
 (* _check_stages: 0 = accepted, 1 = TypeError (stages < 1), 2 = ValueError (stages < 2) *)
 Definition check_stages (stages : Z) : Z := if stages <? 1 then 1 else if stages <? 2 then 2 else 0.
+
+(* ------------------------------------------------------------------ FFSynchronizer under the output domain's reset *)
+(* The output domain has a reset signal rst driven from outside (sync reset by default, or
+   ClockDomain(async_reset=True)); the flops are `reset_less` (constructor default True) or not.
+   Simulator process of the domain: next = shifted values; if rst: every flop that is not reset_less
+   takes its init.  The process runs at an active clock edge and -- in an async-reset domain -- also
+   when rst rises (with no clock edge; all of the process runs then, so reset_less flops SHIFT:
+   finding F7-async-reset-runs-sync-process). *)
+Inductive revent := Rev (e : event) | Rrst (b : bool).
+
+Record ffr_state := FFR { fr_ff : ff_state; fr_rst : bool }.
+
+Definition ffr_process (sh : shape) (init : option Z) (rl : bool) (rst : bool) (f : ff_state) : ff_state :=
+  FF (ff_in f) (if rst && negb rl then ff_chain sh (length (ff_flops f)) init
+                else shift_in (ff_in f) (ff_flops f)).
+
+Definition ffr_step (sh : shape) (init : option Z) (async rl : bool) (s : ffr_state) (e : revent) : ffr_state :=
+  match e with
+  | Rev Eo | Rev Eb => FFR (ffr_process sh init rl (fr_rst s) (fr_ff s)) (fr_rst s)
+  | Rev e' => FFR (ff_step sh (fr_ff s) e') (fr_rst s)
+  | Rrst b => FFR (if async && negb (fr_rst s) && b then ffr_process sh init rl b (fr_ff s) else fr_ff s) b
+  end.
+
+Definition ffr_start (sh : shape) (stages : nat) (init : option Z) (i0 : Z) : ffr_state :=
+  FFR (ff_start sh stages init i0) false.
+
+Definition ffr_run (sh : shape) (stages : nat) (init : option Z) (async rl : bool) (i0 : Z)
+                   (evs : list revent) : ffr_state :=
+  fold_left (ffr_step sh init async rl) evs (ffr_start sh stages init i0).
+
+(* specification vocabulary *)
+Definition erase_rst (evs : list revent) : list event :=
+  flat_map (fun e => match e with Rev e' => [e'] | Rrst _ => [] end) evs.
+Definition rst_never (evs : list revent) : bool :=
+  forallb (fun e => match e with Rrst true => false | _ => true end) evs.
+Fixpoint rst_after (r : bool) (evs : list revent) : bool :=
+  match evs with [] => r | Rrst b :: t => rst_after b t | _ :: t => rst_after r t end.
+
+(* o may have another shape than i: m.d.comb += self.o.eq(flops[-1]) truncates / extends *)
+Definition ff_out_as (osh : shape) (s : ff_state) : Z := norm osh (ff_out s).
+
+(* which components contain RequirePosedge(o_domain): 0 FFSynchronizer, 1 AsyncFFSynchronizer,
+   2 ResetSynchronizer (through AsyncFFSynchronizer), 3 PulseSynchronizer *)
+Definition requires_posedge (comp : Z) : bool := (comp =? 1) || (comp =? 2).
